@@ -97,6 +97,26 @@ def run(ctx):
             else:
                 o1.holds(fn, sh, f"shuffle loop over all of `{g.stubs}` dominates its {len(reads)} later uses")
 
+        with ctx.obligation("C03.2", "the stub lists of different topologies are distinct objects (independent shuffles)") as o2b:
+            g = gen_common.Gen(prog, qn)
+            v = g.stubs_def.value
+            if isinstance(v, ast.ListComp):
+                elt = v.elt
+                fresh = (isinstance(elt, (ast.ListComp, ast.List)) or
+                         (isinstance(elt, ast.Call) and txt(elt.func) in ("list", "sorted", "copy.copy", "copy.deepcopy")) or
+                         (isinstance(elt, ast.Call) and isinstance(elt.func, ast.Attribute) and elt.func.attr == "copy") or
+                         (isinstance(elt, ast.Subscript) and isinstance(elt.slice, ast.Slice)) or
+                         (isinstance(elt, ast.BinOp) and isinstance(elt.op, (ast.Add, ast.Mult))))
+                if fresh:
+                    o2b.holds(g.fn, v, "every topology gets a freshly built list")
+                elif isinstance(elt, (ast.Subscript, ast.Name)) or (isinstance(elt, ast.Call) and isinstance(elt.func, ast.Attribute) and elt.func.attr in ("get", "setdefault")):
+                    o2b.violated(g.fn, v, f"the stub list of a topology is looked up (`{txt(elt)}`) instead of built: topologies with equal keys share ONE list object, so "
+                                          "their shuffles are the same permutation - placements are no longer independent per topology")
+                else:
+                    o2b.undecided(f"stub list element `{txt(elt)}` not recognised as a fresh list", g.fn, v)
+            else:
+                o2b.undecided("stub construction is not a list comprehension", g.fn, v)
+
         with ctx.obligation("C03.3", "nothing re-orders the stub lists after the shuffle") as o3:
             g = gen_common.Gen(prog, qn)
             fn = g.fn
